@@ -250,17 +250,24 @@ impl Stitch {
                                 .await;
                         }
                         State::Done
-                    } else if let Some(prev_band_id) =
-                        previous_existing_band(&self.archive, *band_id).await
-                    {
-                        trace!(?band_id, ?prev_band_id, "moving back to previous band");
-                        State::BeforeBand(prev_band_id)
                     } else {
-                        trace!(
-                            ?band_id,
-                            "no previous band to stitch; stitched iteration is complete"
-                        );
-                        State::Done
+                        match previous_existing_band(&self.archive, *band_id).await {
+                            Ok(Some(prev_band_id)) => {
+                                trace!(?band_id, ?prev_band_id, "moving back to previous band");
+                                State::BeforeBand(prev_band_id)
+                            }
+                            Ok(None) => {
+                                trace!(
+                                    ?band_id,
+                                    "no previous band to stitch; stitched iteration is complete"
+                                );
+                                State::Done
+                            }
+                            Err(err) => {
+                                self.monitor.error(err);
+                                State::Done
+                            }
+                        }
                     }
                 }
             }
@@ -292,18 +299,23 @@ async fn check_hunk_count(
     }
 }
 
-async fn previous_existing_band(archive: &Archive, mut band_id: BandId) -> Option<BandId> {
+async fn previous_existing_band(
+    archive: &Archive,
+    mut band_id: BandId,
+) -> Result<Option<BandId>> {
     loop {
         // TODO: It might be faster to list the present bands, maybe when
         // constructing Stitch, and calculate from that, rather than walking
         // backwards one at a time...
         if let Some(prev_band_id) = band_id.previous() {
             band_id = prev_band_id;
-            if archive.band_exists(band_id).await.unwrap_or(false) {
-                return Some(band_id);
+            // A probe that fails does not mean the band is not there: passing over a band
+            // that exists would present the entries of the one before it in its place.
+            if archive.band_exists(band_id).await? {
+                return Ok(Some(band_id));
             }
         } else {
-            return None;
+            return Ok(None);
         }
     }
 }
